@@ -1404,7 +1404,7 @@ class UnravelBase(PyContract):
                                   patterns=[shape1(n)]))
 
     def global_name(self, eng, st, name):
-        if name in ('np', 'torch', 'warnings'):
+        if name in ('np', 'torch', 'warnings', 'jnp', 'dtypes', 'lax'):
             return OpaqueV('module:' + name)
         if name in ('sum', 'list', 'tuple'):
             return BuiltinV(name)
@@ -1447,7 +1447,11 @@ class UnravelBase(PyContract):
 
     def call(self, eng, st, f, args, kwargs, n, stars):
         line = n.lineno
-        if isinstance(f, BoundV) and isinstance(f.obj, OpaqueV) and f.obj.tag in ('module:np', 'module:torch'):
+        if isinstance(f, BoundV) and isinstance(f.obj, OpaqueV) and f.obj.tag == 'module:dtypes' and f.name == 'dtype':
+            return [(st, dtype_of(args[0]))]
+        if isinstance(f, BoundV) and isinstance(f.obj, OpaqueV) and f.obj.tag == 'module:lax' and f.name == 'convert_element_type':
+            return [(st, cast(args[0], args[1]))]
+        if isinstance(f, BoundV) and isinstance(f.obj, OpaqueV) and f.obj.tag in ('module:np', 'module:torch', 'module:jnp'):
             if f.name == 'shape':
                 return [(st, shape_of(args[0]))]
             if f.name == 'result_type':
@@ -1458,7 +1462,7 @@ class UnravelBase(PyContract):
                 return [(st, z3.Function('promote_types', Ref, Ref, Ref)(args[0], args[1]))]
             if f.name == 'split':
                 flat, cuts = args[0], eng.to_seq(st, args[1])
-                if self.backend == 'numpy':
+                if self.backend in ('numpy', 'jax'):
                     return [(st, SeqV(cuts.len + 1, lambda k, flat=flat, cuts=cuts: part(
                         flat, z3.If(k == 0, 0, eng.as_int(cuts.at(k - 1))), z3.If(k == cuts.len, z3.Int('len_of_flat'), eng.as_int(cuts.at(k))))))]
                 c = z3.Const(self.cut_param, Ref)
@@ -1490,13 +1494,13 @@ class UnravelBase(PyContract):
     # expected piece boundaries
     def bounds(self, k):
         c = z3.Const(self.cut_param, Ref)
-        if self.backend == 'numpy':
+        if self.backend in ('numpy', 'jax'):
             return z3.If(k == 0, 0, int_at(c, k - 1)), int_at(c, k)
         return psum(c, k), psum(c, k + 1)
 
     def total(self):
         c = z3.Const(self.cut_param, Ref)
-        return int_at(c, tup_len(c) - 1) if self.backend == 'numpy' else psum(c, tup_len(c))
+        return int_at(c, tup_len(c) - 1) if self.backend in ('numpy', 'jax') else psum(c, tup_len(c))
 
     def raises(self, eng, st, entry):
         flat = z3.Const('flat', Ref)
@@ -1541,6 +1545,8 @@ _mk_unravel('optree/integration/numpy.py', '_unravel_leaves_single_dtype', 'nump
 _mk_unravel('optree/integration/numpy.py', '_unravel_leaves', 'numpy', 'indices', True)
 _mk_unravel('optree/integration/torch.py', '_unravel_leaves_single_dtype', 'torch', 'sizes', False)
 _mk_unravel('optree/integration/torch.py', '_unravel_leaves', 'torch', 'sizes', True)
+_mk_unravel('optree/integration/jax.py', '_unravel_leaves_single_dtype', 'jax', 'indices', False)
+_mk_unravel('optree/integration/jax.py', '_unravel_leaves', 'jax', 'indices', True)
 
 
 # ---- C20: numpy _ravel_leaves ----------------------------------------------------------------------------------------------
@@ -1559,6 +1565,11 @@ class RavelLeavesNumpy(PyContract):
     indices[k] = size(leaf_0) + .. + size(leaf_k), shapes[k] = np.shape(leaf_k), from_dtypes[k] = result_type(leaf_k)."""
     module = 'optree/integration/numpy.py'
     function = '_ravel_leaves'
+    extra_modules = ()
+    array_module = 'module:np'
+
+    def mixed_piece(self, k, to):
+        return cast(raveled_of(leaf_at(k)), to)           # np.ravel(leaf).astype(to_dtype)
 
     def setup(self, eng, st, fn):
         self.n = z3.Int('number_of_leaves')
@@ -1571,10 +1582,12 @@ class RavelLeavesNumpy(PyContract):
                                   patterns=[self.acc(i)]))
 
     def global_name(self, eng, st, name):
-        if name in ('np', 'itertools', 'functools'):
+        if name in ('np', 'itertools', 'functools') + self.extra_modules:
             return OpaqueV('module:' + name)
-        if name in ('all', 'tuple', 'list'):
+        if name in ('all', 'any', 'tuple', 'list'):
             return BuiltinV(name)
+        if name == 'HashablePartial' and 'jnp' in self.extra_modules:
+            return OpaqueV('class:HashablePartial')
         if name in ('_unravel_empty', '_unravel_leaves_single_dtype', '_unravel_leaves'):
             return OpaqueV('fn:' + name)
         return None
@@ -1594,7 +1607,25 @@ class RavelLeavesNumpy(PyContract):
 
     def call(self, eng, st, f, args, kwargs, n, stars):
         line = n.lineno
-        if isinstance(f, BoundV) and isinstance(f.obj, OpaqueV) and f.obj.tag == 'module:np':
+        if isinstance(f, BoundV) and isinstance(f.obj, OpaqueV) and f.obj.tag == 'module:dtypes':
+            if f.name == 'dtype':
+                return [(st, dtype_of(args[0]))]
+            if f.name == 'result_type' and stars and not args:
+                # the common dtype of the leaves, computed from their dtypes
+                seq = eng.to_seq(st, stars[0])
+                k = z3.Int('k!rt')
+                eng.oblige(st, 'III', 'common-dtype-is-computed-from-the-dtype-of-every-leaf',
+                           z3.And(seq.len == self.n, z3.ForAll([k], z3.Implies(z3.And(0 <= k, k < self.n), seq.at(k) == dtype_of(leaf_at(k))))), line)
+                return [(st, result_type_all(z3.Const('leaves_object', Ref)))]
+        if isinstance(f, BoundV) and isinstance(f.obj, OpaqueV) and f.obj.tag == 'module:lax' and f.name == 'convert_element_type':
+            return [(st, cast(args[0], args[1]))]
+        if isinstance(f, OpaqueV) and f.tag == 'class:HashablePartial':
+            return [(st, StructV('partial', (('fn', args[0]), ('args', TupV(tuple(args[1:]))))))]
+        if isinstance(f, BuiltinV) and f.name == 'any':
+            seq = eng.to_seq(st, args[0])
+            i = z3.Int('i!any')
+            return [(st, z3.Exists([i], z3.And(0 <= i, i < seq.len, eng.truth(st, seq.at(i)))))]
+        if isinstance(f, BoundV) and isinstance(f.obj, OpaqueV) and f.obj.tag == self.array_module:
             if f.name == 'zeros':
                 return [(st, StructV('zeros', (('n', eng.as_int(args[0])),)))]
             if f.name == 'result_type':
@@ -1653,7 +1684,7 @@ class RavelLeavesNumpy(PyContract):
         if not (single or mixed):
             return out
         to = result_type_all(z3.Const('leaves_object', Ref))
-        piece = raveled_of(leaf_at(k)) if single else cast(raveled_of(leaf_at(k)), to)
+        piece = raveled_of(leaf_at(k)) if single else self.mixed_piece(k, to)
         out += [('one-piece-per-leaf', parts.len == self.n),
                 ('piece-k-is-leaf-k-raveled-in-row-major-order' + ('' if single else '-cast-to-the-common-dtype'), z3.Implies(rng, parts.at(k) == piece))]
         indices, shapes = eng.to_seq(st, pargs[0]), eng.to_seq(st, pargs[1])
@@ -1673,6 +1704,18 @@ class RavelLeavesNumpy(PyContract):
         else:
             out.append(('single-dtype-path-only-when-all-dtypes-are-the-common-one', z3.Implies(rng, dtype_of(leaf_at(k)) == to)))
         return out
+
+
+@pycontract
+class RavelLeavesJax(RavelLeavesNumpy):
+    """_ravel_leaves(leaves), jax: as the numpy version with jnp / jax.dtypes / lax: the common dtype is computed from the dtype of
+    every leaf, a leaf is converted to it (lax.convert_element_type) and then raveled, the unravel closure is a HashablePartial."""
+    module = 'optree/integration/jax.py'
+    extra_modules = ('jnp', 'dtypes', 'lax')
+    array_module = 'module:jnp'
+
+    def mixed_piece(self, k, to):
+        return raveled_of(cast(leaf_at(k), to))            # jnp.ravel(lax.convert_element_type(leaf, to_dtype))
 
 
 # ======================================================================================================================
